@@ -31,6 +31,9 @@ type modEntry struct {
 	ref    string
 	idx    string
 	nested bool // modElems over struct elements: covers every (nested) field and inner array of the elements of ref
+	// lo, hi: for modElems on a scalar element heap reached through a slice: only absolute indices in [lo, hi) =
+	// [off, off+cap) may change (a slice cannot address anything before its offset or beyond its capacity)
+	lo, hi string
 }
 
 // nestedElemPred: r lies in the same allocation as the backing array arr (its elements, their nested sub-objects and
@@ -128,6 +131,25 @@ func (c *Ctx) evalMod(env *SpecEnv, x ast.Expr, out *[]modEntry) {
 			}
 			cur = env.fieldStep(cur, i)
 		}
+	case *ast.SliceExpr:
+		// x[:] — the elements addressable through slice x only: absolute indices [off, off+cap) of its backing array
+		// (x[*] is the coarser "whole backing array"; both sides of a contract use the same reading)
+		if v.Low != nil || v.High != nil || v.Max != nil {
+			specFail("modifies %s: only x[:] is supported", exprString(x))
+		}
+		b, ok := env.eval(v.X).(SliceV)
+		if !ok {
+			specFail("modifies %s: not a slice", exprString(x))
+		}
+		el := b.Ty.Underlying().(*types.Slice).Elem()
+		n0 := len(*out)
+		c.elemEntries(b.Arr, el, true, nil, out)
+		if !isAggregate(el) {
+			for k := n0; k < len(*out); k++ {
+				(*out)[k].lo, (*out)[k].hi = b.Off, c.idxAdd(b.Off, b.Cap)
+			}
+		}
+		return
 	case *ast.IndexExpr:
 		base := env.eval(v.X)
 		all := false
@@ -326,6 +348,11 @@ func (c *Ctx) havocMods(s *State, mods []modEntry, allocBase string) {
 				quant = append(quant, m)
 			case m.kind == modElems && isElemHeap(name):
 				f := c.freshConst(s, "hv", Sort(inner))
+				if m.lo != "" {
+					js := firstIndexSort(inner)
+					c.assume(s, fmt.Sprintf("(forall ((j %s)) (! (=> (not (and %s %s)) (= (select %s j) (select (select %s %s) j))) :pattern ((select %s j))))",
+						js, c.idxCmp(token.LEQ, m.lo, "j"), c.idxCmp(token.LSS, "j", m.hi), f, cur, m.ref, f))
+				}
 				cur = fmt.Sprintf("(store %s %s %s)", cur, m.ref, f)
 			case m.kind == modElemAt:
 				f := c.freshConst(s, "hv", Sort(innerSort(inner)))
@@ -433,7 +460,7 @@ func (c *Ctx) checkFrame(s *State, snap map[string]string, mods []modEntry, allo
 		prem := []string{fmt.Sprintf("(< (rootid %s) %s)", r, allocBase), fmt.Sprintf("(not (= %s rnil))", r)}
 		needIdx := false
 		for _, m := range es {
-			if m.kind == modElemAt {
+			if m.kind == modElemAt || m.kind == modElems && m.lo != "" {
 				needIdx = true
 			}
 		}
@@ -444,6 +471,8 @@ func (c *Ctx) checkFrame(s *State, snap map[string]string, mods []modEntry, allo
 				switch {
 				case m.kind == modElems && m.nested:
 					prem = append(prem, "(not "+nestedElemPred(r, m.ref)+")")
+				case m.kind == modElems && m.lo != "":
+					prem = append(prem, fmt.Sprintf("(not (and (= %s %s) %s %s))", r, m.ref, c.idxCmp(token.LEQ, m.lo, j), c.idxCmp(token.LSS, j, m.hi)))
 				case m.kind == modSingle, m.kind == modElems:
 					prem = append(prem, fmt.Sprintf("(not (= %s %s))", r, m.ref))
 				case m.kind == modElemAt:
@@ -1630,6 +1659,9 @@ func (c *Ctx) modPremises(name string, mods []modEntry, r, j string) (prem []str
 			prem = append(prem, fmt.Sprintf("(not (and (= %s %s) (= %s %s)))", r, m.ref, j, m.idx))
 		case m.kind == modElems && m.nested:
 			prem = append(prem, "(not "+nestedElemPred(r, m.ref)+")")
+		case m.kind == modElems && m.lo != "":
+			needIdx = true
+			prem = append(prem, fmt.Sprintf("(not (and (= %s %s) %s %s))", r, m.ref, c.idxCmp(token.LEQ, m.lo, j), c.idxCmp(token.LSS, j, m.hi)))
 		case m.kind == modSingle, m.kind == modElems && isElemHeap(name), m.kind == modMapAll:
 			prem = append(prem, fmt.Sprintf("(not (= %s %s))", r, m.ref))
 		case m.kind == modElems:
